@@ -2,7 +2,7 @@
   SysInv — the system invariant holds along every run; the statements cited by
   `TopsimProps/SysSafety.lean`.
 -/
-import TopsimProofs.SysInv16
+import TopsimProofs.SysInv17
 
 namespace Topsim
 namespace Sys
@@ -99,71 +99,6 @@ theorem start_inv (s0 : Sys) (hw : WFConfig s0) : SInv s0.start := by
     · rw [hd, hadm]; intro o hoa; simp at hoa
 
 /-! ### one step -/
-
-syntax "neutral_kind" : tactic
-macro_rules
-  | `(tactic| neutral_kind) =>
-    `(tactic| first
-      | exact ⟨rfl, rfl, rfl, rfl, rfl⟩
-      | (split <;> neutral_kind))
-
-theorem ingestStreamIter_kind (s : Sys) (now : Time) (oid : Oid) (tl : Int) :
-    (s.ingestStreamIter now oid tl).2.1.neutral := by
-  unfold ingestStreamIter; neutral_kind
-
-theorem ingestStreamBlock_kind (s : Sys) (now : Time) (pc : Nat) (oid : Oid) (tl : Int) :
-    (s.ingestStreamBlock now pc oid tl).2.1.neutral := by
-  unfold ingestStreamBlock
-  split
-  · split
-    · neutral_kind
-    · split
-      · neutral_kind
-      · exact ingestStreamIter_kind _ _ _ _
-  · exact ingestStreamIter_kind _ _ _ _
-
-theorem hot2coldIter_kind (s : Sys) (now : Time) (o : Oid) (left : Int) :
-    (s.hot2coldIter now o left).2.1.neutral := by
-  unfold hot2coldIter; neutral_kind
-
-theorem hot2coldBlock_kind (s : Sys) (now : Time) (cur : Option (Oid × Int)) :
-    (s.hot2coldBlock now cur).2.1.neutral := by
-  unfold hot2coldBlock
-  split
-  · exact hot2coldIter_kind _ _ _ _
-  · split
-    · neutral_kind
-    · neutral_kind
-    · exact hot2coldIter_kind _ _ _ _
-
-theorem cold2hotIter_kind (s : Sys) (now : Time) (o : Oid) (left : Int) :
-    (s.cold2hotIter now o left).2.1.neutral := by
-  unfold cold2hotIter; neutral_kind
-
-theorem cold2hotBlock_kind (s : Sys) (now : Time) (cur : Option (Oid × Int)) :
-    (s.cold2hotBlock now cur).2.1.neutral := by
-  unfold cold2hotBlock
-  split
-  · exact cold2hotIter_kind _ _ _ _
-  · split
-    · neutral_kind
-    · neutral_kind
-    · exact cold2hotIter_kind _ _ _ _
-
-theorem allocTasksIter_kind (s : Sys) (now : Time) (orc : Oracle) (oid : Oid)
-    (schedule pairs : List (Tid × Mid)) (pool : List Tid) :
-    (s.allocTasksIter now orc oid schedule pairs pool).2.1.neutral := by
-  unfold allocTasksIter; simp only; neutral_kind
-
-theorem allocTasksBlock_kind (s : Sys) (now : Time) (orc : Oracle) (pc : Nat) (oid : Oid)
-    (schedule pairs : List (Tid × Mid)) (pool : List Tid) (fin : Bool) :
-    (s.allocTasksBlock now orc pc oid schedule pairs pool fin).2.1.neutral := by
-  unfold allocTasksBlock
-  split
-  · exact ⟨rfl, rfl, rfl, rfl, rfl⟩
-  · split
-    · exact allocTasksIter_kind _ _ _ _ _ _ _
-    · exact allocTasksIter_kind _ _ _ _ _ _ _
 
 theorem step_neutral {s : Sys} (h : SInv s) {pid : Nat} {p : Proc} (hp : s.proc? pid = some p)
     (ha : p.alive = true) (orc : Oracle) (hpres : Pres s (s.block p orc).1) (hk : p.k.neutral)
@@ -300,8 +235,14 @@ theorem reach_free_not_active (s0 s : Sys) (hw : WFConfig s0) (h : ReachOk s0 s)
 theorem reach_starts_nodup (s0 s : Sys) (hw : WFConfig s0) (h : ReachOk s0 s) : s.starts.Nodup :=
   (reach_inv s0 s hw h).dg.startsNodup
 
-theorem reach_admitted_nodup (s0 s : Sys) (hw : WFConfig s0) (h : ReachOk s0 s) : s.admitted.Nodup :=
-  (reach_inv s0 s hw h).eg.admNodup
+/-- the telescope group needs no restriction on the oracle -/
+theorem reach_einv (s0 s : Sys) (hw : WFConfig s0) (h : Reach s0 s) : EInv s := by
+  induction h with
+  | start => exact ⟨(start_inv s0 hw).pw, (start_inv s0 hw).eg⟩
+  | step s pid orc _ hen ih => exact estep ih hen orc
+
+theorem reach_admitted_nodup (s0 s : Sys) (hw : WFConfig s0) (h : Reach s0 s) : s.admitted.Nodup :=
+  (reach_einv s0 s hw h).eg.admNodup
 
 end Sys
 end Topsim
